@@ -229,6 +229,14 @@ type xEdge struct {
 
 func econtent(e *PEdge) string { return fmt.Sprintf("%q|%s", e.Label, e.Attrs) }
 
+// in diagrams with globs what a glob gives a connection depends on where its end points are
+func (x *expectation) econtent(e *PEdge) string {
+	if x.globs {
+		return fmt.Sprintf("%q", e.Label)
+	}
+	return econtent(e)
+}
+
 // matchEdges compares the surviving connections group by group (same endpoints and arrows).
 func (x *expectation) matchEdges(post *PBoard) ([]*xEdge, *mismatch) {
 	var xs []*xEdge
@@ -271,7 +279,7 @@ func (x *expectation) matchEdges(post *PBoard) ([]*xEdge, *mismatch) {
 		}
 		if x.ordered {
 			for i := range exp {
-				if econtent(exp[i].pre) != econtent(got[i]) {
+				if x.econtent(exp[i].pre) != x.econtent(got[i]) {
 					return nil, &mismatch{"connection-content-changed", fmt.Sprintf("connection %s (label %q) should be %s afterwards, which has label %q / attributes\n  %s\n  vs\n  %s", exp[i].pre.Abs, exp[i].pre.Label, got[i].Abs, got[i].Label, exp[i].pre.Attrs, got[i].Attrs)}
 				}
 				exp[i].post = got[i]
@@ -282,14 +290,14 @@ func (x *expectation) matchEdges(post *PBoard) ([]*xEdge, *mismatch) {
 		for _, xe := range exp {
 			n := 0
 			for _, xe2 := range exp {
-				if econtent(xe2.pre) == econtent(xe.pre) {
+				if x.econtent(xe2.pre) == x.econtent(xe.pre) {
 					n++
 				}
 			}
 			var hit *PEdge
 			m := 0
 			for _, f := range got {
-				if !usedF[f] && econtent(f) == econtent(xe.pre) {
+				if !usedF[f] && x.econtent(f) == x.econtent(xe.pre) {
 					if hit == nil {
 						hit = f
 					}
